@@ -73,7 +73,10 @@ def run(chk):
                          name, lib.enc(ex).replace("%", "%%"), raw))
     # ---- tie + monitor for names
     maxlen = 4 if thorough else 3
-    cases = [(k, s) for s in strings(maxlen) for k in KINDS]
+    # (the kinds that read a whole document per name are enumerated one length shorter in the thorough tier: the enumeration of
+    # the other kinds is several hundred thousand requests per stream already)
+    HEAVY = ("decl-attr", "doctype-name")
+    cases = [(k, s) for s in strings(maxlen) for k in KINDS if not (thorough and k in HEAVY and len(s) >= maxlen)]
     # names that begin with (or are) a reserved prefix: the grammar treats `xmlns` / `xmlns:p` / `xml...` specially, every
     # other name that merely starts with those letters is an ordinary name
     for w in ("xmlns", "xml", "XML", "xmlnsxmlns", "x"):
